@@ -64,6 +64,36 @@ def run(cmd, env=None, timeout=3600, cwd=None, stdout=None):
         raise ToolError(f"timeout after {timeout}s: {' '.join(cmd)[:200]}")
 
 
+KILL_LABELS = ['C06/no-return[killed]', 'C15/path-extraction[killed]']
+
+
+def run_guarded(cmd, work, timeout=3600, mem_kb=8_000_000, max_kills=10):
+    """Runs a harness binary under an address-space limit and a wall-clock limit. A hang or an
+    unbounded allocation in the code under test (e.g. path extraction walking a parent cycle) kills
+    the process: the run in progress is recorded as data, skipped, and the rest is re-run."""
+    progress = os.path.join(work, 'progress')
+    killed = []
+    while True:
+        if os.path.exists(progress):
+            os.remove(progress)
+        full = cmd + ['--progress', progress] + (['--skip', ','.join(str(k) for k in killed)] if killed else [])
+        sh = f"ulimit -v {mem_kb}; exec timeout {timeout} " + ' '.join("'" + c.replace("'", "'\\''") + "'" for c in full)
+        p = subprocess.run(['bash', '-c', sh], stdout=subprocess.DEVNULL, stderr=subprocess.PIPE, text=True)
+        if p.returncode == 0:
+            return p, killed
+        cur = None
+        if os.path.exists(progress):
+            try:
+                cur = int(open(progress).read().strip())
+            except ValueError:
+                cur = None
+        if cur is None or cur in killed or len(killed) >= max_kills:
+            raise ToolError(f"{os.path.basename(cmd[0])} failed (rc={p.returncode}) and the run in progress could not be isolated: "
+                            + p.stderr[-800:])
+        log(f"[guard] {os.path.basename(cmd[0])} died (rc={p.returncode}) during run {cur}: recorded, skipping it")
+        killed.append(cur)
+
+
 _built = False
 
 
@@ -312,13 +342,13 @@ def lattice_engine(planner, tier, seed, api=False):
         nshards = 8 if st.get('kept_after_prefix_elimination', 0) > 4000 else 1
         trace = os.path.join(work, f'{name}.trace')
         twice = ['--twice'] if (api or 'api' in name) else []
-        p = run([os.path.join(HARNESS_BIN, 'latreplay'), '--in', hist, '--out', trace, '--shards', str(nshards),
-                 '--seed', str(seed)] + twice, stdout=subprocess.DEVNULL, timeout=1800)
-        if p.returncode != 0:
-            raise ToolError(f'latreplay failed on {hist}: {p.stderr[-1500:]}')
+        p, killed = run_guarded([os.path.join(HARNESS_BIN, 'latreplay'), '--in', hist, '--out', trace, '--shards', str(nshards),
+                                 '--seed', str(seed)] + twice, work, timeout=1800)
         info = json.loads(p.stderr.strip().splitlines()[-1])
         traces = [trace] if nshards == 1 else [f'{trace}.{k}' for k in range(nshards)]
         viols, events = tlc_monitor(traces)
+        for k in killed:
+            viols.append({'run': k, 'line': 0, 'labels': list(KILL_LABELS), 'trace': None})
         hist_lines = None
         for v in viols:
             if hist_lines is None:
@@ -363,14 +393,14 @@ def real_engine(tier, seed):
     os.makedirs(work)
     trace = os.path.join(work, 'real.trace')
     nshards = 8 if tier == 'thorough' else 4
-    p = run([os.path.join(HARNESS_BIN, 'realrun'), '--out', trace, '--shards', str(nshards), '--seed', str(seed), '--tier', tier],
-            stdout=subprocess.DEVNULL, timeout=7200)
-    if p.returncode != 0:
-        raise ToolError('realrun failed: ' + p.stderr[-1500:])
+    p, killed = run_guarded([os.path.join(HARNESS_BIN, 'realrun'), '--out', trace, '--shards', str(nshards), '--seed', str(seed),
+                             '--tier', tier], work, timeout=7200)
     info = json.loads(p.stderr.strip().splitlines()[-1])
     index = {x['run']: x['desc'] for x in info['index']}
     traces = [f'{trace}.{k}' for k in range(nshards)]
     viols, events = tlc_monitor(traces, timeout=7200)
+    for k in killed:
+        viols.append({'run': k, 'line': 0, 'labels': list(KILL_LABELS), 'trace': None})
     res = {'engine': 'real', 'planner': '*', 'configs': [], 'violations': [], 'samples': [], 'states': 0, 'transitions': 0,
            'traces': info['runs'], 'events': events, 'witnesses': [], 'label_counts': {}}
     for v in viols:
@@ -572,7 +602,8 @@ def run_check(pid, tier, seed):
             continue
         seen.add(key)
         os.makedirs(rdir, exist_ok=True)
-        path = os.path.join(rdir, f"{v['engine'].replace(':', '_')}-{v.get('cfg', 'x')}-run{v['run']}-{re.sub(r'[^A-Za-z0-9]+', '_', v['label'])}.json")
+        fname = f"{v['engine']}-{v.get('cfg', 'x')}-run{v['run']}-line{v.get('line', 0)}-{v['label']}"
+        path = os.path.join(rdir, re.sub(r'[^A-Za-z0-9.-]+', '_', fname) + '.json')
         json.dump({'property': pid, 'label': v['label'], 'engine': v['engine'], 'planner': v.get('planner'),
                    'cfg': v.get('cfg'), 'input': v.get('input'), 'tier': tier, 'seed': seed}, open(path, 'w'), indent=1)
         print(f"VIOLATION property={pid} replay={path}")
